@@ -57,7 +57,9 @@ def _case(draw):
             "pm_r": [draw(gen.f(0.5, 1.2)), draw(gen.f(-0.5, 0.5)), draw(gen.f(-1.0, -0.3))], "pm_rate": draw(gen.f(0.5, 2.0)),
             "motion": draw(build.motion(moving=True, rotating=draw(st.booleans()))), "k": draw(gen.f(1, 20)),
             "dt": draw(st.sampled_from([0.01, 0.02])), "nsteps": draw(st.integers(10, 40)), "fps": 10.0 ** draw(gen.f(0.0, 2.3)),
-            "ascii": draw(st.booleans())}
+            "ascii": draw(st.booleans()),
+            # the point mass is additionally exported under a file name that is already taken (the rigid body's)
+            "same_name": draw(st.booleans())}
 
 
 def strategy(tier):
@@ -101,6 +103,8 @@ def check(spec):
     finally:
         shutil.rmtree(tmp, ignore_errors=True)
     res.label("kind:" + spec["kind"], "ascii" if spec["ascii"] else "binary_requested")
+    if spec.get("same_name"):
+        res.label("two_exports_under_one_file_name")
     return res
 
 
@@ -190,6 +194,8 @@ def _dynamic(spec, res, feats, tmp, Export):
         e.export_contr(link)
         e.export_contr(spring)
         e.export_contr([grav_b, grav_p], file_name="gravity")
+        if spec.get("same_name"):
+            e.export_contr(pm, file_name="ball")  # Export must pick a free name ("ball1") and leave "ball" alone
     folder = os.path.join(tmp, "out")
     t, q, u = np.asarray(sol.t), np.asarray(sol.q), np.asarray(sol.u)
     mot = build.motion_functions(spec["motion"])
@@ -211,10 +217,11 @@ def _dynamic(spec, res, feats, tmp, Export):
     if len(fr) >= 2:
         moved = float(np.linalg.norm(q[fr[-1][0]][ball.qDOF][:3] - q[fr[0][0]][ball.qDOF][:3])) > 1e-3
     # ---- point mass ------------------------------------------------------------------------------
-    for k, p in _frames(res, "PointMass", feats, folder, "pm", t):
-        pts, cd, _ = read_vtu(p)
-        _cmp(res, "points_equal_geometry", "PointMass", feats, pts, [q[k][pm.qDOF]], f"row {k}")
-        _cmp(res, "vectors_equal_state:v", "PointMass", feats, cd.get("v"), [u[k][pm.uDOF]], f"row {k}")
+    for coll in ["pm"] + (["ball1"] if spec.get("same_name") else []):
+        for k, p in _frames(res, "PointMass", feats, folder, coll, t):
+            pts, cd, _ = read_vtu(p)
+            _cmp(res, "points_equal_geometry", "PointMass", feats, pts, [q[k][pm.qDOF]], f"row {k} of {coll}.pvd")
+            _cmp(res, "vectors_equal_state:v", "PointMass", feats, cd.get("v"), [u[k][pm.uDOF]], f"row {k} of {coll}.pvd")
     # ---- prescribed frame -------------------------------------------------------------------------
     for k, p in _frames(res, "Frame", feats, folder, "mover", t):
         pts, cd, _ = read_vtu(p)
